@@ -212,6 +212,10 @@ def check(ctx):
     from ..rules import persist as _psm
     _psm.check_decode_memos(ctx)
     amount_filter_membership(ctx)
+    # instances with connection edges are cached by the processor: the caches are keyed canonically (A1/A2)
+    from ..rules import persist as _ps11, decode as _dc11
+    _fns11, _ = _dc11.decode_slice(ctx)
+    _ps11.Persist(ctx, [ctx.fn(f'{GP}.get_graph')], _fns11).check_writes()
 
 
 from ..selftest import V  # noqa: E402
